@@ -11,41 +11,43 @@ namespace C15
 def sfn : List Nat := [70, 70, 70, 70, 32, 32, 32, 32, 84, 88, 84] ++ 0x20 :: List.replicate 20 0
 end C15
 
-/-- **C15.3** For a name of 1 … 255 UTF-16 units whose last unit is neither `0x0000` nor `0xFFFF`, reading the slots
+/-- **C15.3** For EVERY name of 1 … 255 UTF-16 units none of which is `0x0000`, reading the slots
     `LfnEntriesGenerator` writes, followed by a short file entry whose checksum they carry, returns exactly one entry
-    with exactly those units — in both buffer variants. -/
+    with exactly those units — in both buffer variants.  No condition on the last unit: a trailing U+FFFF survives,
+    also when the length is a multiple of 13 (no terminator slot). -/
 theorem lfn_roundtrip (alloc skipVolume : Bool) (name sfn : List Nat)
     (h1 : 1 ≤ name.length) (h255 : name.length ≤ 255) (hu : ∀ x ∈ name, x < 65536)
-    (hne : name ≠ []) (hlast : isPad (name.getLast hne) = false) (hsfn : slotClass sfn = .file) :
+    (hnz : ∀ x ∈ name, x ≠ 0) (hsfn : slotClass sfn = .file) :
     readDirEntries alloc skipVolume (lfnGenerate name (lfnChecksum (sfnName sfn)) ++ [sfn]) =
       [⟨sfn, name, 0, numParts name.length + 1⟩] := by
   obtain ⟨g1, g2, g3, g4⟩ := generate_complete name (lfnChecksum (sfnName sfn)) h1 (by omega) hu
-  rw [read_complete_run alloc skipVolume _ sfn g1 g3 hsfn, g2, g4,
-    stripTrailing_append_pads _ _ (padTail_isPad _), stripTrailing_of_last_good _ hne hlast, capName,
+  rw [read_complete_run alloc skipVolume _ sfn g1 g3 hsfn, g2, g4, cutAtNul_padded _ hnz, capName,
     if_neg (by omega)]
 
 /-- What the reader does with a 20-slot run holding 256 … 260 units (the library never writes one: names are validated
     to at most 255 bytes first): the entry gets NO long name, i.e. it falls back to the short name — both variants. -/
 theorem lfn_overlong_falls_back (alloc skipVolume : Bool) (name sfn : List Nat)
     (h256 : 256 ≤ name.length) (h260 : name.length ≤ 260) (hu : ∀ x ∈ name, x < 65536)
-    (hne : name ≠ []) (hlast : isPad (name.getLast hne) = false) (hsfn : slotClass sfn = .file) :
+    (hnz : ∀ x ∈ name, x ≠ 0) (hsfn : slotClass sfn = .file) :
     readDirEntries alloc skipVolume (lfnGenerate name (lfnChecksum (sfnName sfn)) ++ [sfn]) =
       [⟨sfn, [], 0, 21⟩] := by
   obtain ⟨g1, g2, g3, g4⟩ := generate_complete name (lfnChecksum (sfnName sfn)) (by omega) h260 hu
   have hn : numParts name.length = 20 := by unfold numParts; omega
-  rw [read_complete_run alloc skipVolume _ sfn g1 g3 hsfn, g2, g4,
-    stripTrailing_append_pads _ _ (padTail_isPad _), stripTrailing_of_last_good _ hne hlast, capName,
+  rw [read_complete_run alloc skipVolume _ sfn g1 g3 hsfn, g2, g4, cutAtNul_padded _ hnz, capName,
     if_pos (by omega), hn]
 
 example : readDirEntries false true (lfnGenerate [0x61, 0x62, 0x4E2D] (lfnChecksum (sfnName C15.sfn)) ++ [C15.sfn]) =
     [⟨C15.sfn, [0x61, 0x62, 0x4E2D], 0, 2⟩] :=
-  lfn_roundtrip false true _ _ (by simp) (by simp) (by decide) (by simp) (by decide) (by decide)
+  lfn_roundtrip false true _ _ (by simp) (by simp) (by decide) (by decide) (by decide)
 
-/-- **F12** the hypothesis on the last unit is forced: U+FFFF is an accepted name character, the generator writes it,
-    and the reader (stripping every trailing `0x0000`/`0xFFFF`) loses it — the name `"a\u{FFFF}"` reads back as `"a"`. -/
-theorem trailing_ffff_counterexample :
-    ∀ alloc, readDirEntries alloc true (lfnGenerate [0x61, 0xFFFF] (lfnChecksum (sfnName C15.sfn)) ++ [C15.sfn]) =
-      [⟨C15.sfn, [0x61], 0, 2⟩] := by
+/-- regression (former F12 witness): the name `"a\u{FFFF}"` reads back unit for unit (before commit 712f847 it read
+    back as `"a"`), and so does a 13-unit name ending in U+FFFF, which has no terminator slot — both variants -/
+theorem trailing_ffff_regression :
+    (∀ alloc, readDirEntries alloc true (lfnGenerate [0x61, 0xFFFF] (lfnChecksum (sfnName C15.sfn)) ++ [C15.sfn]) =
+      [⟨C15.sfn, [0x61, 0xFFFF], 0, 2⟩]) ∧
+    (∀ alloc, readDirEntries alloc true
+        (lfnGenerate (List.replicate 12 0x61 ++ [0xFFFF]) (lfnChecksum (sfnName C15.sfn)) ++ [C15.sfn]) =
+      [⟨C15.sfn, List.replicate 12 0x61 ++ [0xFFFF], 0, 2⟩]) := by
   decide +kernel
 
 /-- **C03.4** The slots produced for 1 … 255 units: `n = ⌈len/13⌉` slots of 32 bytes; slot `i` carries
